@@ -341,7 +341,7 @@ func init() {
 		kind := kind
 		p.Strata = append(p.Strata, mon.Stratum{
 			Name: "variation/" + name,
-			N:    qt(8000, 200000),
+			N:    qt(8000, 800000),
 			Run: func(c *mon.Ctx, i int) {
 				prof := patchProfiles[i%5]
 				var a, b any
